@@ -89,7 +89,8 @@ Literals ==
 
 \* branches / jumps to an ABSOLUTE address held in a constant (the distance grows when earlier items shrink)
 Abs ==
-  << Const("K1", 260), Const("K2", 2052), Const("K3", 1048578), Const("K4", 39), I4, IC,
+  << Const("K1", 260), Const("K2", 2052), Const("K3", 1048578), Const("K4", 39), Const("K5", 536875012), I4, IC,
+     Pjk("tail", "K5", 536875012), Pjk("call", "K5", 536875012),      \* 0x20001004: %lo is 0 seen from the jalr of a pair at address 0
      Lil(8, "offk", "K4", 39), Lil(9, "offk", "K2", 2052), Imml("addi", "offk", 8, 0, "K4", 39), Align(8), Br("bne", 9, 0, "L1"), Li(9, 0, 5), Li(9, 4660, 22136), Pj("call", "L1"), Lab("L1"),
      Pjk("tail", "K3", 1048578), Pjk("call", "K3", 1048578), Pjk("call", "K1", 260),
      Brk("beq", 8, 0, "K1", 260), Brk("bne", 9, 0, "K1", 260), Brk("blt", 5, 6, "K1", 260), Jalk(0, "K2", 2052), Jalk(1, "K2", 2052),
@@ -163,7 +164,7 @@ WellFormed(its) ==
   /\ Cardinality({j \in 1..Len(its) : its[j].k = "gap"}) <= MaxGapItems
   /\ \A j \in 1..Len(its) : ConstRef(its[j]) =>
         (\E q \in 1..Len(its) : its[q].k = "const" /\ its[q].t = its[j].t)
-  /\ \A t \in {"K1", "K2", "K3", "K4"} : Cardinality({j \in 1..Len(its) : its[j].k = "const" /\ its[j].t = t}) <= 1
+  /\ \A t \in {"K1", "K2", "K3", "K4", "K5"} : Cardinality({j \in 1..Len(its) : its[j].k = "const" /\ its[j].t = t}) <= 1
   \* a program that ends in a label-free tail after its last reference/label adds nothing: the last item matters
   /\ its[Len(its)].k \notin {"data"}
 
